@@ -14,6 +14,7 @@ import json
 import os
 import random
 import re
+import time
 
 from harness import core
 from harness import alias_run
@@ -213,6 +214,16 @@ def run(ctx):
     ]
     rng = random.Random(ctx.seed * 7919 + 10)
 
+    if ctx.replay:
+        # re-run exactly the recorded session through the code and the trace specification
+        rec = json.load(open(ctx.replay))
+        job = dict(rec["case"]["job"], sid=0, trace_errors=True)
+        cases = run_sessions([job], nproc=1)
+        v = ctx.judge("Aliasing_Trace", [strip_case(c) for c in cases], name="replay", stateful=True)
+        handle(ctx, cases, v, "replay")
+        ctx.note("replayed %s: verdict %s %s" % (ctx.replay, v.get(0), ctx.judge_extra.get(0)))
+        return
+
     # ---------------------------------------------------------------- M
     props = ["InputsUntouchedP", "NoAliasP", "IdentityKeptP"]
     ctx.model_check("Aliasing", dict(spec="Spec", invariants=["TypeOK"], properties=props, view="MCView",
@@ -238,6 +249,7 @@ def run(ctx):
     if not r.ok:
         raise core.MachineryError("a copying trim/crop must satisfy the property")
     ctx.exhaustive = True
+    ctx.extra["t_model_s"] = round(time.time() - ctx.t0)
 
     # ---------------------------------------------------------------- R
     allcfgs = enumerate_configs(ctx)
@@ -253,6 +265,7 @@ def run(ctx):
     v = ctx.judge("Aliasing_Trace", [strip_case(c) for c in cases], name="configs", stateful=True, workers=2, parallel=8)
     nraised = handle(ctx, cases, v, "config")
     ctx.extra["configs_replayed"] = len(cases)
+    ctx.extra["t_configs_s"] = round(time.time() - ctx.t0)
     ctx.extra["configs_raised_outside_domain"] = nraised
     for c in cases[:3]:
         e = c["events"][0]
@@ -268,20 +281,22 @@ def run(ctx):
     if cv.get(0) != "ok":
         raise core.MachineryError("configuration space not covered: %s %s" % (cv.get(0), ctx.judge_extra.get(0)))
 
-    # other parameter variants of every function on the two float configurations (thorough)
-    if ctx.tier == "thorough":
-        from harness import alias_api
-        meta = alias_api.catalog_meta()
-        vjobs = []
-        for c in allcfgs:
-            if (c["dtype"], c["layout"]) in (("float32", "C"), ("float64", "F"), ("int16", "strided")) and c["supported"]:
-                for vi in range(1, meta[c["f"]]["nvariants"]):
-                    vjobs.append({"sid": len(vjobs), "tag": "variant", "calls": [
-                        {"f": c["f"], "variant": vi, "args": None, "dtype": c["dtype"], "layout": c["layout"],
-                         "backend": c["backend"]}]})
-        vcases = run_sessions(vjobs)
-        vv = ctx.judge("Aliasing_Trace", [strip_case(c) for c in vcases], name="variants", stateful=True, workers=2, parallel=4)
-        handle(ctx, vcases, vv, "variant")
+    # other parameter variants of every function (quick: float64/C; thorough: three configurations)
+    from harness import alias_api
+    meta = alias_api.catalog_meta()
+    vsel = (("float64", "C"),) if ctx.tier != "thorough" else (("float32", "C"), ("float64", "F"), ("int16", "strided"), ("float64", "C"))
+    vjobs = []
+    for c in allcfgs:
+        if (c["dtype"], c["layout"]) in vsel and c["supported"]:
+            for vi in range(1, meta[c["f"]]["nvariants"]):
+                vjobs.append({"sid": len(vjobs), "tag": "variant", "calls": [
+                    {"f": c["f"], "variant": vi, "args": None, "dtype": c["dtype"], "layout": c["layout"],
+                     "backend": c["backend"]}]})
+    vcases = run_sessions(vjobs)
+    vv = ctx.judge("Aliasing_Trace", [strip_case(c) for c in vcases], name="variants", stateful=True, workers=2, parallel=4)
+    handle(ctx, vcases, vv, "variant")
+    ctx.extra["variant_calls_replayed"] = len(vcases)
+    ctx.extra["t_variants_s"] = round(time.time() - ctx.t0)
 
     # ---------------------------------------------------------------- T: call sequences
     sjobs = session_jobs(ctx, ctx.pick(40, 400), ctx.pick(4, 6), rng, 0)
